@@ -7,7 +7,7 @@ import tempfile
 from pathlib import Path
 
 from .. import coq
-from ..core import Ctx
+from ..core import REPO, Ctx
 from ..harness import lint as L
 from .c14 import coq_cl
 
@@ -61,8 +61,16 @@ def run(ctx: Ctx) -> None:
     ctx.rule("real temp directory trees (sibling names sharing a prefix, nested dirs, names with space / non-ASCII) x entry paths spelled with ./, x/.., //, trailing /, absolute, "
              "x config file in the root, a sub- or parent directory x working directory in root/subdir x code, category and foreign entries; plus symlinked dirs/files (execution only); "
              "non-trivial = entry has a path; distinct by (cwd, config, entry, file, code)")
-    b = coq.compile_props(ctx, {}, ["C12"])
+    gens, order = {}, ["C12"]
+    try:
+        from ..translate.amend import translate as translate_amend
+        gens["GenAmend"] = translate_amend(REPO)
+        order += ["GenAmend", "C12Amend"]
+    except Exception as e:  # noqa: BLE001
+        ctx.obligation("translate is_ignored_via_amend (the loop over settings.ignore)", False, f"{type(e).__name__}: {e}")
+    b = coq.compile_props(ctx, gens, order)
     coq.record_build(ctx, b)
+    translated_ok = b.files.get("GenAmend", {}).get("rc") == 0
     import refurb.main as rmain
     from refurb.error import Error, ErrorCategory, ErrorCode
     from refurb.settings import Settings
@@ -193,10 +201,11 @@ def run(ctx: Ctx) -> None:
             e2e(ctx, root)
         finally:
             os.chdir(old_cwd)
-    if b.ok:
-        hdr = ("From Lib Require Import Base Select Paths.\nOpen Scope list_scope.\nSet Printing Width 100000.\n"
+    if b.files.get("C12", {}).get("rc") == 0:
+        hdr = ("From Lib Require Import Base Select Paths GenTpl.\n" + ("From P Require Import GenAmend.\n" if translated_ok else "") + "Open Scope list_scope.\nSet Printing Width 100000.\n"
                "Definition chk (c : list string * option string * list cls * string * bool * (string * N * list string)) : bool := let '(cwd, cf, igs, f, r, (pre, id, cats)) := c in\n"
-               "  Bool.eqb (ignored_via_amend cwd cf (igs ++ [Code \"FURB\" 999 None]) f pre id cats) r.\n")
+               "  Bool.eqb (ignored_via_amend cwd cf (igs ++ [Code \"FURB\" 999 None]) f pre id cats) r"
+               + (" && Bool.eqb (amend_translated (fun p n => (p ++ N_to_dec n)%string) cwd cf (igs ++ [Code \"FURB\" 999 None]) f pre id cats) r" if translated_ok else "") + ".\n")
         shards, per = [], 400
         for i in range(0, len(cases), per):
             rows = []
@@ -218,9 +227,11 @@ def run(ctx: Ctx) -> None:
             for j in [int(x) for x in vals[0].strip("[]").split(";") if x.strip()][:3]:
                 c = cases[si * per + j]
                 mism.append(f"cwd={c[0]} cf={c[1]} ign={c[2]} file={c[3]} real={c[4]}")
-        ctx.obligation("correspondence: Lib/Paths.v ignored_via_amend = refurb.main.is_ignored_via_amend on every symlink-free layout",
+        ctx.obligation("correspondence: Lib/Paths.v ignored_via_amend" + (" and the translated loop (GenAmend.v)" if translated_ok else "") + " = refurb.main.is_ignored_via_amend on every symlink-free layout",
                        not mism, "; ".join(mism[:4]))
-    ctx.resolve_broken({"correspondence: Lib/Paths.v ignored_via_amend = refurb.main.is_ignored_via_amend on every symlink-free layout": ("amend:",)}, b.first_error)
+    ctx.resolve_broken({"correspondence: Lib/Paths.v ignored_via_amend = refurb.main.is_ignored_via_amend on every symlink-free layout": ("amend:",),
+                        "correspondence: Lib/Paths.v ignored_via_amend and the translated loop (GenAmend.v) = refurb.main.is_ignored_via_amend on every symlink-free layout": ("amend:",),
+                        "translate is_ignored_via_amend (the loop over settings.ignore)": ("amend:",), "amend_translated_is_the_model": ("amend:",), "amend_order_irrelevant": ("amend:",)}, b.first_error)
 
 
 def e2e(ctx: Ctx, root: Path) -> None:
